@@ -1580,7 +1580,11 @@ int main(int argc, char** argv)
             default: B[2] = sf.bmag; break;
         }
         LD const Bn = sqrtl(B[0] * B[0] + B[1] * B[1] + B[2] * B[2]);
-        double const radius = ratios[ir] * scale;
+        // B = 0: a straight line with round step lengths from round start points ends EXACTLY on
+        // a surface (step 1 + 1 from y = 1 to the face y = 3): a measure-zero tie that a curved
+        // path never produces and that belongs to C05 ("internal move rounded onto a surface").
+        // The zero-field block therefore uses a generic length scale.
+        double const radius = ratios[ir] * scale * (sf.fk == Fk::u0 ? 0.9371 : 1.0);
         // zero field: the momentum that would have this gyroradius in 1 T (radius is then only the
         // length scale of the requested steps)
         LD const p_target = kappa * (Bn > 0 ? Bn : 1e4L) * radius;
@@ -1727,6 +1731,11 @@ int main(int argc, char** argv)
                             out = "driver:chord-search-exhausted-step-and-state-disagree[" + sig + "]";
                         else if (x.ogs)
                             out = "driver:one-good-step-exhausted-step-and-state-disagree[" + sig + "]";
+                        else if (x.chord_discarded && sig.compare(0, 5, "skip:") == 0)
+                            // find_next_chord ran out, accurate_advance then integrated the rescaled
+                            // step accurately - but its sagitta was never brought below delta_chord,
+                            // and only the chord is tested for boundaries
+                            out = "driver:chord-search-exhausted-substep-sagitta-unchecked[" + sig + "]";
                         R.violation(out, full_id(), describe() + " :: [" + sig + "] " + msg);
                     };
 
@@ -2202,10 +2211,33 @@ int main(int argc, char** argv)
                                          vf::dstr(geo.dir()[1]).c_str(), vf::dstr(geo.dir()[2]).c_str()));
                                 break;
                             }
+                            if (R.verbose())
+                                fprintf(stderr, "  crossed -> vol=%s onb=%d\n", vname(geo).c_str(), geo.is_on_boundary());
                             if (geo.is_outside())
                             {
                                 R.tag("traj:left-world");
                                 break;
+                            }
+                            {
+                                // the volume ORANGE reports after the crossing must contain the
+                                // landing point (which was just verified to lie on the surface of
+                                // the old volume): otherwise every later call starts from an
+                                // inconsistent navigation state
+                                VolumeId vn = geo.volume_id();
+                                int regn = (vn && vn.get() < G.vol2reg.size()) ? G.vol2reg[vn.unchecked_get()] : -1;
+                                LD pc[3] = {geo.pos()[0], geo.pos()[1], geo.pos()[2]};
+                                if (regn < 0 || region_depth(G.prims, G.regions[regn], pc) < -1e-6L)
+                                {
+                                    viol("nav:volume-after-crossing-does-not-contain-the-landing-point",
+                                         fmt("call %d landed in '%s' at (%s,%s,%s) dir (%s,%s,%s); cross_boundary() "
+                                             "-> '%s', analytic depth there %Lg",
+                                             j, G.regions[reg0].name.c_str(), vf::dstr(geo.pos()[0]).c_str(),
+                                             vf::dstr(geo.pos()[1]).c_str(), vf::dstr(geo.pos()[2]).c_str(),
+                                             vf::dstr(geo.dir()[0]).c_str(), vf::dstr(geo.dir()[1]).c_str(),
+                                             vf::dstr(geo.dir()[2]).c_str(), vname(geo).c_str(),
+                                             regn < 0 ? LD(0) : region_depth(G.prims, G.regions[regn], pc)));
+                                    break;
+                                }
                             }
                         }
                     }
